@@ -70,6 +70,14 @@ class Check(object):
             self.configs.append(prog.config)
         self.units = max(self.units, len(prog.units))
         self.functions = max(self.functions, len(prog.funcs))
+        for k, v in sorted(getattr(prog, 'renamed', {}).items()):
+            t = 'normalisation: %s is analysed under its reference name %s (matched by fingerprint)' % (k, v)
+            if t not in self.notes:
+                self.notes.append(t)
+        for name, f, line in getattr(prog, 'inlined_helpers', []):
+            t = 'normalisation: pure helper %s() expanded at %s:%s' % (name, rel(f) if f else '?', line)
+            if t not in self.notes:
+                self.notes.append(t)
 
     def ob(self, clause, rule, function, instance, ok, msg, file=None, line=0, path=None,
            sample=None, trivial=False, extra=None, config=None):
